@@ -263,6 +263,9 @@ enum Op {
     /// SOCKS5 upstream only: the server refuses / accepts UDP ASSOCIATE
     Refuse,
     Accept,
+    /// SOCKS5 upstream only: the server holds / releases its UDP ASSOCIATE reply ("slow" mode)
+    Hold,
+    Release,
 }
 
 fn op_json(o: &Op) -> Value {
@@ -277,6 +280,8 @@ fn op_json(o: &Op) -> Value {
         Op::Resume => json!({"e": "Resume"}),
         Op::Refuse => json!({"e": "Refuse"}),
         Op::Accept => json!({"e": "Accept"}),
+        Op::Hold => json!({"e": "Hold"}),
+        Op::Release => json!({"e": "Release"}),
     }
 }
 
@@ -529,7 +534,7 @@ impl<'a> Run<'a> {
                 ev(if want { "Stall" } else { "Resume" }, String::new());
                 self.settle(None).await;
             }
-            Op::Refuse | Op::Accept => {
+            Op::Refuse | Op::Accept | Op::Hold | Op::Release => {
                 self.skipped += 1;
                 return;
             }
@@ -545,6 +550,8 @@ mod s5;
 
 /// SOCKS5 upstream: replies that were left waiting in an association socket by the reader
 static DELAYED: AtomicU64 = AtomicU64::new(0);
+/// SOCKS5 upstream: handshakes of a fresh association that the expiry tick cancelled
+static CANCELLED: AtomicU64 = AtomicU64::new(0);
 
 /// merge consecutive one-millisecond advances into one line
 fn merge_adv(mut lines: Vec<String>) -> Vec<String> {
@@ -780,6 +787,8 @@ fn parse_ops(s: &Value) -> Vec<Op> {
                 "Up" => Op::Up(o["a"].as_str().map(static_name).unwrap_or("relay")),
                 "Refuse" => Op::Refuse,
                 "Accept" => Op::Accept,
+                "Hold" => Op::Hold,
+                "Release" => Op::Release,
                 "Stall" => Op::Stall,
                 "Resume" => Op::Resume,
                 x => panic!("unknown op {}", x),
@@ -818,6 +827,11 @@ fn main() {
         }
     }
     let n_tlc = plans.len() as u64;
+    if socks && (arg("--random").is_some() || arg("--schedules").is_some()) {
+        for (i, ops) in s5::directed().into_iter().enumerate() {
+            plans.insert(i, (json!({"from": "directed", "run": i, "ops": ops.iter().map(op_json).collect::<Vec<_>>()}), ops));
+        }
+    }
     if let Some(n) = arg("--random") {
         let n: u64 = n.parse().unwrap();
         let mut rng = StdRng::seed_from_u64(seed().wrapping_mul(7919).wrapping_add(7));
@@ -916,6 +930,7 @@ fn main() {
     rep.count("ops_skipped_not_enabled", skipped);
     rep.count("runs_where_exchange_returned_early", early);
     rep.count("socks5_replies_read_late", DELAYED.load(Ordering::SeqCst));
+    rep.count("handshake_cancelled_by_tick", CANCELLED.load(Ordering::SeqCst));
     rep.finish(&out_path);
 }
 
